@@ -157,6 +157,9 @@ def to_schedule(beh):
 
 
 def run(prop, tier):
+    # every second case goes through the gRPC front end (frontend.GRPCService, requests and responses passed through the
+    # protobuf wire format), the others through the msgpack-RPC DataService: the property does not depend on the transport
+    os.environ.setdefault("VERIF_FRONT", "mix")
     res = Result(prop, tier)
     rng = random.Random(vlib.seed() * 49979687 + 17)
     quick = tier == "quick"
